@@ -135,11 +135,18 @@ def _decoy():
                 ins.get_string()
 
 
-def judge(strings, last, decoy=True):
+SIZE_LIES = [None, "zero", "minus1", "plus1", "double"]      # declared utf16_size of every judged string: truthful / wrong
+
+
+def judge(strings, last, decoy=True, lie=None):
     """-> list of (key, msg)"""
     from gen import dexgen as G
     from androguard.core import dex
     model, strings = build_model(strings)
+    if lie:
+        # the statement defines a string by its MUTF-8 BYTES; the declared size is made wrong for every judged string
+        f = {"zero": lambda n: 0, "minus1": lambda n: max(n - 1, 0), "plus1": lambda n: n + 1, "double": lambda n: 2 * n + 1}[lie]
+        model.declared_utf16 = {s_: f(len(u16(s_))) for s_ in strings}
     raw, lay = G.build(model, return_layout=True, string_data_last=last)
     P = lay["pools"]
     out = []
@@ -161,7 +168,7 @@ def judge(strings, last, decoy=True):
         return "+".join(c) or "ascii"
 
     def bad(api, s, got):
-        out.append(("%s:%s%s" % (api, cls_of(s), ":at-eof" if last else ""),
+        out.append(("%s:%s%s%s" % (api, cls_of(s), ":at-eof" if last else "", ":declared-size-" + lie if lie else ""),
                     "%s: expected code units %s, got %s" % (api, [hex(u) for u in u16(s)][:12], got)))
     try:
         if decoy:
@@ -172,8 +179,9 @@ def judge(strings, last, decoy=True):
         # the alternative entry points must agree: count, per-item size / raw MUTF-8 bytes, raw lookup, regexp lookup
         if vm.get_len_strings() != len(P.slist):
             bad("get_len_strings", strings[0], vm.get_len_strings())
+        decl = getattr(model, "declared_utf16", {})
         for it, sref in zip(vm.strings or [], P.slist):
-            if it.get_utf16_size() != len(u16(sref)) or bytes(it.get_data()) != G.mutf8(sref)[0] + b"\x00":
+            if it.get_utf16_size() != decl.get(sref, len(u16(sref))) or bytes(it.get_data()) != G.mutf8(sref)[0] + b"\x00":
                 bad("string_data_item", sref, [it.get_utf16_size(), bytes(it.get_data()).hex()[:40]])
                 break
         for sref in strings[:3]:
@@ -219,32 +227,36 @@ def judge(strings, last, decoy=True):
 
 def shards(ctx):
     ps = pools(ctx)
-    return [(i, last) for i in range(len(ps)) for last in (False, True)]
+    lies = SIZE_LIES[1:] if ctx.thorough else ["minus1", "plus1"]
+    return [(i, last, None) for i in range(len(ps)) for last in (False, True)] + [(i, False, lie) for i in range(len(ps)) for lie in lies]
 
 
 def space(ctx):
     ps = pools(ctx)
     return {"units": ["%04x" % u for u in UNITS], "pools": len(ps), "strings": sum(len(p[1]) for p in ps),
-            "lengths": "0..300 of units 61, e9, 4e2d, 0000 (+ mixed-width lead)", "layouts": ["normal", "string data at end of file"]}
+            "lengths": "0..300 of units 61, e9, 4e2d, 0000 (+ mixed-width lead)", "layouts": ["normal", "string data at end of file"],
+            "declared_utf16_size": ["truthful"] + (SIZE_LIES[1:] if ctx.thorough else ["minus1", "plus1"])}
 
 
 def run_shard(ctx, shard):
     acc = Acc()
-    i, last = shard
+    i, last, lie = shard
     label, strings = pools(ctx)[i]
-    res = judge(strings, last)
+    res = judge(strings, last, lie=lie)
     for s in strings:
         acc.case(nontrivial=(tuple(u16(s)),) if nontrivial(s) else None)
     acc.outcomes.add(h8(label.split(":")[0].rstrip("0123456789")))
+    if lie:
+        acc.count("strings_with_wrong_declared_size", len(strings))
     for key, msg in res:
-        acc.violation(key, {"strings": [u16(s) for s in strings], "last": last}, "pool %s: %s" % (label, msg))
+        acc.violation(key, {"strings": [u16(s) for s in strings], "last": last, "lie": lie}, "pool %s: %s" % (label, msg))
     if i in (0, 3) and not last:
         acc.sample({"pool": label, "strings_as_utf16_units": [["%04x" % u for u in u16(s)] for s in strings[:5]]})
     return acc
 
 
 def replay(ctx, w):
-    res = judge([mk(us) for us in w["strings"]], w["last"])
+    res = judge([mk(us) for us in w["strings"]], w["last"], lie=w.get("lie"))
     return "\n".join("%s: %s" % r for r in res) if res else None
 
 
